@@ -42,8 +42,8 @@ func c04Jobs(tier string, seed int64) []string {
 	}
 	for _, cfg := range []string{"val", "g", "gcfk"} {
 		for k := 0; k <= n; k++ {
-			if k == 3 && cfg == "gcfk" {
-				continue // three free bytes: ~75k paths per configuration; run for the two basic configurations
+			if k == 3 && cfg != "g" {
+				continue // three free bytes: ~75k paths; run for the plain generic parser only
 			}
 			add("free:" + cfg + ":" + strconv.Itoa(k))
 		}
@@ -59,9 +59,7 @@ func c04Jobs(tier string, seed int64) []string {
 			if tier == "thorough" || (cfg == "gcfk" && (pi == 0 || pi == 3)) || (cfg == "val" && pi == 1) {
 				add("tmpl:" + cfg + ":1:" + p)
 			}
-			if tier == "thorough" && pi < 1 {
-				add("tmpl:" + cfg + ":2:" + p)
-			}
+			// two symbolic bytes in a template exceed 200k paths per program: not registered
 		}
 	}
 	for _, cfg := range cfgs {
